@@ -369,6 +369,9 @@ def insertPath (ks : List Key) (p : Key) : List Key :=
   if ks.contains p then ks
   else (ks.filter (fun q => !(isPrefixKey q p) && !(isPrefixKey p q))) ++ [p]
 
+/-- two key paths are unrelated: neither is a prefix of the other (in particular they differ) -/
+def Unrelated (p q : Key) : Prop := isPrefixKey p q = false ∧ isPrefixKey q p = false
+
 def writeBack (out inv : St) : Except Err St :=
   if inv.bs ≠ out.bs then .error .runtime
   else if out.locked then .ok out
